@@ -67,153 +67,181 @@ def eval_const(ctx, r: Rat, env: dict) -> Fraction:
     return poly(r.n) / poly(r.d)
 
 
+def _guard_holds(ctx, g, env):
+    """truth of a comparison guard at rational values of the free atoms (None when it is not a comparison)"""
+    if g.kind != 'cmp':
+        return None
+    val = eval_const(ctx, g.rat, env)
+    return {'<': val < 0, '<=': val <= 0, '==': val == 0, '!=': val != 0}[g.key[0]]
+
+
+PTS = [Fraction(x) for x in ('-1000', '-2', '-1.0000001', '-1', '-0.5', '0', '0.3', '1', '1.0000001', '2', '1000')]
+
+
 def check_shape(model, rep):
+    """apply_rules is evaluated abstractly for every rule set of 0..4 rules and every subset of applicable rules
+    (a rule's apply() returns None, a symbolic proposal p_i, or the literal 0): 31 + 8 configurations.  Written as
+    a counting if-chain, a match statement, an accumulating loop or a filter - the evaluator does not care."""
+    import itertools
     m = model.member('PWMControl', 'apply_rules')
-    fn = copy.deepcopy(m.node)
-    body = strip_docstring(fn.body)
-    proposals = count = None
-    problems = []
-    new_body = []
-    chosen_seen = False
-    for st in body:
-        if isinstance(st, ast.Assign) and len(st.targets) == 1 and isinstance(st.targets[0], ast.Name):
-            v = st.value
-            name = st.targets[0].id
-            # proposals = [rule.apply() for rule in self.__rules]
-            if isinstance(v, (ast.ListComp, ast.GeneratorExp)) and len(v.generators) == 1 and not v.generators[0].ifs \
-                    and isinstance(v.generators[0].target, ast.Name) and _is_rules_iter(v.generators[0].iter) \
-                    and _calls_apply_on(v.generators[0].target.id, v.elt) and proposals is None:
-                proposals = name
-                continue
-            # count = sum([p is not None for p in proposals])  |  len([p for p in proposals if p is not None])
-            if proposals and count is None and isinstance(v, ast.Call) and isinstance(v.func, ast.Name) and len(v.args) == 1 \
-                    and isinstance(v.args[0], (ast.ListComp, ast.GeneratorExp)):
-                comp = v.args[0]
-                gen = comp.generators[0]
-                if len(comp.generators) == 1 and isinstance(gen.iter, ast.Name) and gen.iter.id == proposals \
-                        and isinstance(gen.target, ast.Name):
-                    var = gen.target.id
-                    if v.func.id == 'sum' and not gen.ifs and _not_none_test(comp.elt, var):
-                        count = name
-                        continue
-                    if v.func.id == 'len' and len(gen.ifs) == 1 and _not_none_test(gen.ifs[0], var) \
-                            and isinstance(comp.elt, ast.Name) and comp.elt.id == var:
-                        count = name
-                        continue
-                    if v.func.id in ('sum', 'len'):
-                        problems.append((st.lineno, f'proposals are counted with `{ast.unparse(v)[:80]}`: the count must use the '
-                                                    f'identity test `is not None` (a proposed duty cycle of 0 is a proposal)'))
-                        count = name
-                        continue
-        new_body.append(st)
-    if proposals is None:
-        # other shapes (filter(None, ...), truthiness) are decided below as violations when recognisable
-        src = ast.unparse(fn)
-        if 'filter(None' in src or 'if rule.apply()' in src:
-            rep.violation('C14.shape', 'PWMControl.apply_rules:proposals',
-                          'proposals are filtered by truthiness: a rule proposing exactly 0 is treated as not applicable', m.loc)
-        else:
-            rep.cannot('C14.shape', 'PWMControl.apply_rules', 'the list of rule proposals was not recognised '
-                       '([rule.apply() for rule in self.__rules])', m.loc)
-        return
-    rep.holds('C14.shape', 'PWMControl.apply_rules:proposals', 'every rule is asked exactly once per call', m.loc)
-    if count is None:
-        rep.cannot('C14.shape', 'PWMControl.apply_rules:count', 'the count of applicable rules was not recognised', m.loc)
-        return
-    for ln, what in problems:
-        rep.violation('C14.shape', 'PWMControl.apply_rules:count', what, f'{m.module}:{ln}')
-    if not problems:
-        rep.holds('C14.shape', 'PWMControl.apply_rules:count', 'proposals counted with `is not None`', m.loc)
+    configs = []
+    for n in range(0, 5):
+        for mask in itertools.product((False, True), repeat=n):
+            configs.append([('p' if x else None) for x in mask])
+    for n in range(1, 4):          # a proposal of exactly 0 is a proposal (identity test, not truthiness)
+        for pos in range(n):
+            configs.append(['zero' if i == pos else None for i in range(n)])
+    configs.append(['zero', 'p'])
+    configs.append(['p', 'zero'])
+    per_k = {}          # k -> [problem strings]
+    clip_bad = None
+    zero_bad = None
+    n_eval = 0
+    for cfg in configs:
+        sx = SX(model)
+        sx.eval_comprehensions = True
+        sxm.POSITIVE_ATOMS.clear()
+        values = {}
+        for i, c in enumerate(cfg):
+            values[f'rule{i}'] = sxm.NoneV() if c is None else (N(Rat.const(0)) if c == 'zero' else N(Rat.atom(f'p{i}'), 'float'))
 
-    # the chosen proposal: [f(p) for p in proposals if p is not None][0]  ->  f(__CHOSEN__)
-    class Rewrite(ast.NodeTransformer):
-        def visit_Subscript(self, node):
-            self.generic_visit(node)
-            v = node.value
-            if isinstance(v, ast.ListComp) and len(v.generators) == 1:
-                gen = v.generators[0]
-                if isinstance(gen.iter, ast.Name) and gen.iter.id == proposals and isinstance(gen.target, ast.Name) \
-                        and len(gen.ifs) == 1 and _not_none_test(gen.ifs[0], gen.target.id) \
-                        and isinstance(node.slice, ast.Constant) and node.slice.value == 0:
-                    var = gen.target.id
-
-                    class Sub(ast.NodeTransformer):
-                        def visit_Name(self, n):
-                            return ast.copy_location(ast.Name('__CHOSEN__', ast.Load()), n) if n.id == var else n
-                    return Sub().visit(copy.deepcopy(v.elt))
-            return node
-    fn.body = [Rewrite().visit(s) for s in new_body]
-    ast.fix_missing_locations(fn)
-    left = [n for n in ast.walk(fn) if isinstance(n, ast.Name) and n.id == proposals]
-    if left:
-        rep.cannot('C14.shape', 'PWMControl.apply_rules:selection', f'the proposal list is used in an unrecognised way at line '
-                   f'{left[0].lineno}', m.loc)
-        return
-    sx = SX(model)
-    sxm.POSITIVE_ATOMS.clear()
-    st0 = sxm.State(env={})
-    cnt_atom, ch_atom = Rat.atom('COUNT'), Rat.atom('CHOSEN')
-    frame = {'module': m.module, 'cls': 'PWMControl', 'fn': fn, 'depth': 0}
-    st = sxm.State(env={'self': Ov('self', 'PWMControl', True), count: N(cnt_atom, 'int'), '__CHOSEN__': Dyn(ch_atom)})
-    outs = sx.block(fn.body, [st], frame)
-    rep.inspect(len(outs))
-    # region table over the count: 0, 1, 2, 3
-    for c, want in ((0, 'one'), (1, 'clip'), (2, 'raise'), (3, 'raise')):
-        hits = []
+        def hook(sx_, n, f, recv, args, kwargs, st, frame, values=values):
+            if isinstance(f, ast.Attribute) and f.attr == 'apply' and isinstance(recv, Ov) and recv.path in values:
+                return [(st.with_effect(('rule-apply', recv.path, n.lineno)), values[recv.path])]
+            return None
+        sx.call_hook = hook
+        st = sxm.State(env={})
+        st.heap[('self', '_PWMControl__rules')] = sxm.Tv([Ov(f'rule{i}', 'RuleBase', False) for i in range(len(cfg))])
+        try:
+            outs = sx.run(m.node, m.module, 'PWMControl', Ov('self', 'PWMControl', True), {}, st)
+        except CannotDecide as e:
+            rep.cannot('C14.shape', 'PWMControl.apply_rules', f'{e} (rule set {cfg})', m.loc)
+            return
+        n_eval += len(outs)
+        k = sum(1 for c in cfg if c is not None)
+        probs = per_k.setdefault(min(k, 4), [])
+        tag = '[' + ', '.join('None' if c is None else ('0' if c == 'zero' else 'p') for c in cfg) + ']'
+        if not outs:
+            probs.append(f'no path for the rule set {tag}')
+            continue
+        if k >= 2:
+            for o in outs:
+                if not (o.kind == 'raise' and o.value == 'ValueError'):
+                    probs.append(f'with proposals {tag} the call '
+                                 f'{"raises " + str(o.value) if o.kind == "raise" else "continues silently"}; ValueError is specified')
+                    break
+            continue
+        # k in (0, 1): every path completes with one store of the duty cycle on the motor
+        bad = None
         for o in outs:
-            okp = True
-            for g in o.state.guards:
-                if g.kind == 'cmp':
-                    v = sx.ctx.subst(g.rat, {'COUNT': Rat.const(c)})
-                    if v.is_const():
-                        val = v.const_value()
-                        okp = okp and {'<': val < 0, '<=': val <= 0, '==': val == 0, '!=': val != 0}[g.key[0]]
-            if okp:
-                hits.append(o)
-        cons = f'PWMControl.apply_rules[count={c}]'
-        if len(hits) != 1:
-            rep.violation('C14.shape', cons, f'{len(hits)} paths for {c} applicable rule(s)', m.loc)
+            stores = [e for e in o.state.effects if e[0] == 'store' and e[2] == 'pwm']
+            if o.kind == 'raise':
+                bad = f'with proposals {tag} the call raises {o.value}'
+            elif len(stores) != 1:
+                bad = f'with proposals {tag} the motor duty cycle is assigned {len(stores)} times'
+            elif not stores[0][1].endswith('elements[0]'):
+                bad = f'the duty cycle is assigned to {stores[0][1]}, not to the motor elements[0]'
+            if bad:
+                break
+        if bad:
+            probs.append(bad)
             continue
-        o = hits[0]
-        if want == 'raise':
-            rep.decide(o.kind == 'raise' and o.value == 'ValueError', 'C14.shape', cons,
-                       f'with {c} applicable rules the call {"raises " + str(o.value) if o.kind == "raise" else "continues silently"}; '
-                       f'ValueError is specified', loc=f'{m.module}:{o.loc or m.node.lineno}')
+        if k == 0 or 'zero' in cfg:
+            want = Fraction(1) if k == 0 else Fraction(0)
+            for o in outs:
+                val = [e for e in o.state.effects if e[0] == 'store' and e[2] == 'pwm'][0][3]
+                t = getattr(val, 'term', None)
+                try:
+                    same = t is not None and eval_const(sx.ctx, t, {}) == want
+                except CannotDecide:
+                    same = False
+                if not same:
+                    msg = (f'with proposals {tag} the duty cycle becomes `{sx.show(val)[:60]}`; ' +
+                           ('default 1 is specified' if k == 0 else 'a rule proposing exactly 0 is applicable and must win'))
+                    if k == 0:
+                        probs.append(msg)
+                    else:
+                        zero_bad = zero_bad or msg
             continue
-        stores = [e for e in o.state.effects if e[0] == 'store' and e[2] == 'pwm']
-        if o.kind == 'raise' or len(stores) != 1:
-            rep.violation('C14.shape', cons, f'the motor duty cycle is assigned {len(stores)} times / path {o.kind}', m.loc)
-            continue
-        owner, val = stores[0][1], stores[0][3]
-        t = getattr(val, 'term', None)
-        if not owner.endswith('elements[0]'):
-            rep.violation('C14.shape', cons, f'the duty cycle is assigned to {owner}, not to the motor elements[0]', m.loc)
-            continue
-        if want == 'one':
-            rep.decide(t is not None and sx.ctx.eq(t, Rat.const(1)), 'C14.shape', cons,
-                       f'with no applicable rule the duty cycle becomes `{sx.show(val)[:60]}`, default 1 is specified', loc=m.loc)
-        else:
-            # clip(CHOSEN): exhaustive region table of the min/max term
-            pts = [Fraction(x) for x in ('-1000', '-2', '-1.0000001', '-1', '-0.5', '0', '0.3', '1', '1.0000001', '2', '1000')]
-            bad = None
-            if t is None:
-                rep.violation('C14.shape', cons, f'with one applicable rule the duty cycle assigned is `{sx.show(val)[:60]}`, '
-                              f'not the clipped proposal', m.loc)
-                continue
+        # one symbolic proposal: region table over the proposal value
+        atom = f'p{cfg.index("p")}'
+        for pt in PTS:
+            env = {atom: pt}
             try:
-                for p in pts:
-                    got = eval_const(sx.ctx, t, {'CHOSEN': p})
-                    exp = max(Fraction(-1), min(Fraction(1), p))
-                    if got != exp:
-                        bad = (p, got, exp)
-                        break
+                live = [o for o in outs if all(_guard_holds(sx.ctx, g, env) is not False for g in o.state.guards)]
+                if len(live) != 1:
+                    probs.append(f'{len(live)} paths for the single proposal {float(pt)} ({tag})')
+                    break
+                val = [e for e in live[0].state.effects if e[0] == 'store' and e[2] == 'pwm'][0][3]
+                t = getattr(val, 'term', None)
+                if t is None:
+                    probs.append(f'with one applicable rule the duty cycle assigned is `{sx.show(val)[:60]}`, not the clipped proposal')
+                    break
+                got = eval_const(sx.ctx, t, env)
             except CannotDecide as e:
-                rep.cannot('C14.clip', cons, str(e), m.loc)
-                continue
-            rep.decide(bad is None, 'C14.clip', 'PWMControl:saturation',
-                       f'a proposal of {float(bad[0]) if bad else 0} is applied as {float(bad[1]) if bad else 0}, clipping to [-1, 1] '
-                       f'gives {float(bad[2]) if bad else 0}', loc=m.loc, detail=f'{len(pts)} regions/breakpoints of the piecewise-linear term')
-            rep.holds('C14.shape', cons, 'single proposal, clipped, assigned once to the motor', m.loc)
+                rep.cannot('C14.clip', 'PWMControl:saturation', str(e), m.loc)
+                return
+            exp = max(Fraction(-1), min(Fraction(1), pt))
+            if got != exp:
+                clip_bad = clip_bad or (pt, got, exp, tag)
+                break
+    rep.inspect(n_eval)
+    for k in range(0, 5):
+        probs = per_k.get(k, [])
+        cons = f'PWMControl.apply_rules[count={k}]'
+        rep.decide(not probs, 'C14.shape', cons, probs[0] if probs else '', loc=m.loc,
+                   detail=f'{sum(1 for c in configs if min(sum(1 for x in c if x is not None), 4) == k)} rule-set configurations')
+    rep.decide(zero_bad is None, 'C14.shape', 'PWMControl.apply_rules:zero-proposal', zero_bad or '', loc=m.loc)
+    rep.decide(clip_bad is None, 'C14.clip', 'PWMControl:saturation',
+               (f'a proposal of {float(clip_bad[0])} is applied as {float(clip_bad[1])}, clipping to [-1, 1] gives '
+                f'{float(clip_bad[2])} (rule set {clip_bad[3]})') if clip_bad else '', loc=m.loc,
+               detail=f'{len(PTS)} regions/breakpoints of the proposal value, every position of the applicable rule')
+    rep.analysed['apply_rules_configurations'] = len(configs)
+
+
+def _nan_truth(test, par):
+    """truth of a guard expression when `par` is NaN (a float): True / False / None (not decidable here)"""
+    if isinstance(test, ast.BoolOp):
+        vals = [_nan_truth(v, par) for v in test.values]
+        if isinstance(test.op, ast.Or):
+            return True if any(v is True for v in vals) else (None if any(v is None for v in vals) else False)
+        return False if any(v is False for v in vals) else (None if any(v is None for v in vals) else True)
+    if isinstance(test, ast.UnaryOp) and isinstance(test.op, ast.Not):
+        v = _nan_truth(test.operand, par)
+        return None if v is None else not v
+    if isinstance(test, ast.Compare):
+        operands = [test.left] + list(test.comparators)
+        res = True
+        for a, op, b in zip(operands, test.ops, operands[1:]):
+            involves = any(isinstance(x, ast.Name) and x.id == par for y in (a, b) for x in ast.walk(y))
+            if not involves or not isinstance(op, (ast.Gt, ast.GtE, ast.Lt, ast.LtE, ast.Eq, ast.NotEq)):
+                return None
+            if not isinstance(op, ast.NotEq):
+                res = False
+        return res
+    if isinstance(test, ast.Call) and isinstance(test.func, ast.Name) and test.func.id == 'isinstance' and len(test.args) == 2 \
+            and isinstance(test.args[0], ast.Name) and test.args[0].id == par:
+        return True if 'float' in ast.unparse(test.args[1]) else None
+    if isinstance(test, ast.Call) and ast.unparse(test.func) in ('isnan', 'math.isnan', 'np.isnan', 'numpy.isnan') \
+            and len(test.args) == 1 and isinstance(test.args[0], ast.Name) and test.args[0].id == par:
+        return True
+    return None
+
+
+def _nan_reaches_store(body, par):
+    """sequence of `if guard: raise` statements followed by the store: does a NaN argument reach the store?"""
+    for s in body:
+        if isinstance(s, ast.If) and not s.orelse and s.body and isinstance(s.body[-1], ast.Raise):
+            v = _nan_truth(s.test, par)
+            if v is None:
+                return None
+            if v:
+                return False
+            continue
+        if isinstance(s, ast.Assign):
+            return True
+        return None
+    return None
 
 
 def check_range(model, rep):
@@ -228,6 +256,17 @@ def check_range(model, rep):
     gs = spec.guards('v <= 1 and v >= -1')
     ok = bool(done) and all(all(implies(o.state.guards, g) for g in gs) for o in done)
     rep.decide(ok, 'C14.range', 'DCMotor.pwm[setter]', 'the setter can store a duty cycle outside [-1, 1]', loc=st.loc)
+    # IEEE clause of the same guard: every ordering comparison with NaN is false, so a guard written as
+    # `raise if v > 1 or v < -1` lets NaN through where `raise unless -1 <= v <= 1` does not (the built-in
+    # StartLimitCurrent rule returns NaN for a negative radicand, and min(max(nan, -1), 1) is nan)
+    par = st.node.args.args[1].arg
+    verdict = _nan_reaches_store(strip_docstring(st.node.body), par)
+    if verdict is None:
+        rep.note('C14.range', 'DCMotor.pwm[setter]:nan', 'guard shape outside the comparison idioms; NaN clause not decided', st.loc)
+    else:
+        rep.decide(not verdict, 'C14.range', 'DCMotor.pwm[setter]:nan',
+                   'a NaN duty cycle (e.g. proposed by StartLimitCurrent for a negative radicand) passes the range guard, which only '
+                   'raises on `>`/`<` comparisons that are false for NaN, and is stored and recorded', loc=st.loc)
     bad = []
     for c, ci in model.classes.items():
         for mem in ci.all_members():
